@@ -183,6 +183,21 @@ fn wal_files(dir: &Path) -> Vec<PathBuf> {
     v
 }
 
+/// Largest timestamp among the rotated files (0 if none): grows with every rotation.
+fn rotated_files(dir: &Path) -> u64 {
+    std::fs::read_dir(dir)
+        .map(|rd| {
+            rd.flatten()
+                .filter_map(|e| {
+                    let n = e.file_name().to_string_lossy().to_string();
+                    n.strip_prefix("wal.").and_then(|x| x.strip_suffix(".wal")).and_then(|x| x.parse::<u64>().ok())
+                })
+                .max()
+                .unwrap_or(0)
+        })
+        .unwrap_or(0)
+}
+
 fn snapshots(dir: &Path) -> Vec<PathBuf> {
     let mut v: Vec<PathBuf> = std::fs::read_dir(dir)
         .map(|rd| rd.flatten().map(|e| e.path()).filter(|p| p.extension().and_then(|s| s.to_str()) == Some("snap")).collect())
@@ -240,7 +255,8 @@ pub fn drive(a: &Args) -> i32 {
 
     for seg in 0..segments {
         let long = long_every > 0 && seg % long_every == long_every - 1;
-        let nk: u64 = if long { 4 } else { rng.gen_range(1..=4) };
+        // long segments use more keys: a lost record stays visible until its key is rewritten
+        let nk: u64 = if long { 16 } else { rng.gen_range(1..=4) };
         let nops: u64 = if long { rng.gen_range(2050..3100) } else { rng.gen_range(12..40) };
         store_no += 1;
         let mut live = tmp.join(format!("live{store_no}"));
@@ -250,16 +266,31 @@ pub fn drive(a: &Args) -> i32 {
         ctx.lock().expect("ctx").live = live.clone();
         let mut damage_left = if long { damage_budget / 2 } else { damage_budget };
         let mut i = 0u64;
+        let mut since_open = 0u64; // the writer's entry count restarts whenever the store is opened
+        let mut nrot = 0u64;
+        let mut post_rot = 0u32;
+        let mut clock_step = false;
         while i < nops {
             i += 1;
             let m = mgr.as_ref().expect("mgr");
             // which operations are observed at their crash points
-            let armed = if long { i % 1000 >= 997 || i % 1000 <= 2 || rng.gen_bool(0.004) } else { rng.gen_bool(0.6) };
+            since_open += 1;
+            if long && post_rot == 0 && rotated_files(&live) > nrot {
+                nrot = rotated_files(&live);
+                post_rot = 1; // a rotation just happened: checkpoint (clock advanced), a few armed ops, clean restart
+            }
+            let armed = if long { since_open >= 996 || post_rot > 0 || rng.gen_bool(0.004) } else { rng.gen_bool(0.6) };
             ctx.lock().expect("ctx").armed = armed;
             let kind = if long {
-                // long segments exist to force rotation: mostly writes, rare checkpoints and restarts
+                // long segments exist to force rotation: mostly writes; a checkpoint in the middle of each
+                // file and one right after each rotation (with the clock advanced in between, since
+                // snapshot and rotated-file names carry the wall-clock second), then a clean restart
                 let x = rng.gen_range(0..1000);
-                if x < 700 { 0 } else if x < 990 { 70 } else if x < 997 { 92 } else { 99 }
+                if post_rot == 1 { post_rot = 2; clock_step = true; 92 }
+                else if post_rot >= 2 && post_rot < 5 { post_rot += 1; if x < 700 { 0 } else { 70 } }
+                else if post_rot == 5 { post_rot = 0; 99 }
+                else if since_open == 400 { 92 }
+                else if x < 700 { 0 } else if x < 995 { 70 } else { 92 }
             } else {
                 rng.gen_range(0..100)
             };
@@ -302,7 +333,8 @@ pub fn drive(a: &Args) -> i32 {
             } else if kind < 96 {
                 // snapshot and rotated-file names carry the wall-clock second: let the clock advance
                 // now and then so that several snapshots / rotations with distinct names exist
-                if rng.gen_bool(if long { 0.2 } else { 0.04 }) {
+                if clock_step || rng.gen_bool(if long { 0.05 } else { 0.04 }) {
+                    clock_step = false;
                     std::thread::sleep(std::time::Duration::from_millis(1050));
                 }
                 let r = rt.block_on(m.checkpoint());
@@ -314,6 +346,7 @@ pub fn drive(a: &Args) -> i32 {
                 let r = reopen(&live, nk);
                 t.ev(merge(json!({"ev":"CleanReopen"}), obs(&r)));
                 mgr = Some(rt.block_on(async { Mgr::new(cfg(&live)).await.expect("open") }));
+                since_open = 0;
                 continue;
             };
             ctx.lock().expect("ctx").armed = false;
@@ -374,6 +407,7 @@ pub fn drive(a: &Args) -> i32 {
                     let r = reopen(&live, nk);
                     t.ev(merge(json!({"ev":"ContinueFrom"}), obs(&r)));
                     mgr = Some(rt.block_on(async { Mgr::new(cfg(&live)).await.expect("open") }));
+                    since_open = 0;
                     ctx.lock().expect("ctx").live = live.clone();
                     continue;
                 }
